@@ -430,6 +430,10 @@ type bScenario struct {
 func runBScenarios(t *testing.T, prop string, scs []bScenario) {
 	w := newWorker(t, prop)
 	defer w.finish()
+	runBScenariosW(w, prop, scs)
+}
+
+func runBScenariosW(w *worker, prop string, scs []bScenario) {
 	only := os.Getenv("VERIF_ONLY") // development aid: run the scenarios whose name contains this
 	for i, sc := range scs {
 		if only != "" && !strings.Contains(sc.Name, only) {
